@@ -82,6 +82,9 @@ fn healthy_history(run: &Run, case: u64) {
         }
     }
     run.nontrivial(fnv(descs.join("|").as_bytes()));
+    if std::env::var_os("CV_TRACE_SLOW").is_some() {
+        eprintln!("healthy case {case}: {descs:?}");
+    }
     run.sample(|| json!({"healthy_case": case, "history": descs}));
 }
 
@@ -287,11 +290,9 @@ pub fn run(tier: Tier, replay: Option<Value>) -> i32 {
         large_healthy(&run);
         return run.finish("replay", &[], None, &[]);
     }
-    if replay.is_none() {
-        super::alongside(&run, "the large healthy archives", || large_healthy(&run), || run.par_cases(tier.pick(120, 5000), super::threads(), |c| healthy_history(&run, c)));
-    } else if healthy_replay {
-        run.par_cases(tier.pick(120, 5000), super::threads(), |c| healthy_history(&run, c));
-    }
+    // the damage side first: a healthy history can be slow (after its first version, at b99998,
+    // is deleted every listing walks down a hundred thousand band numbers), and the soft time
+    // budget must never be what leaves the damage side unobserved
     if !healthy_replay {
         let n = tier.pick(6u64, 200);
         for case in 0..n {
@@ -337,6 +338,11 @@ pub fn run(tier: Tier, replay: Option<Value>) -> i32 {
                 }
             });
         }
+    }
+    if replay.is_none() {
+        super::alongside(&run, "the large healthy archives", || large_healthy(&run), || run.par_cases(tier.pick(120, 5000), super::threads(), |c| healthy_history(&run, c)));
+    } else if healthy_replay {
+        run.par_cases(tier.pick(120, 5000), super::threads(), |c| healthy_history(&run, c));
     }
     let needs: &[(&str, u64)] = if replay.is_some() { &[] } else {
         &[("healthy_validations", 100), ("healthy_states_with_interrupted_band", 3), ("damages_applied", 200), ("harmful_damages", 50), ("harmless_damages", 5), ("large_healthy_archives", 2), ("healthy_validations_with_few_file_descriptors", 1), ("harmful_damages_validated_with_a_stale_gc_lock", 20), ("healthy_archives_with_a_block_above_the_block_size", 1), ("healthy_histories_with_255_byte_names", 10)]
